@@ -48,6 +48,9 @@ type c08Run struct {
 	Hdr  []int `json:"hdr"`
 	Len  int   `json:"len"`
 	Body bool  `json:"body"`
+	// writeseq: several WriteMsg calls on one connection; message i is Sent[i] bytes of value 200+i
+	Oks  []bool `json:"oks"`  // per call: accepted (no error)
+	Wire []int  `json:"wire"` // every byte the peer received
 }
 
 type nullInformator struct{}
@@ -345,6 +348,55 @@ func c08Write(id int, md string, n int, rng *rand.Rand) c08Run {
 	return run
 }
 
+// a sequence of writes on one connection, some of them of lengths the mode cannot carry: what the peer receives
+func c08WriteSeq(id int, md string, lens []int) c08Run {
+	run := c08Run{Op: "writeseq", ID: id, Level: "mode", Mode: md, Sent: lens, Codes: []string{}, Cuts: []int{}, Got: []c08Got{}, Oks: []bool{}, Wire: []int{}}
+	ln, err := net.Listen("tcp", "127.0.0.1:0")
+	must(err)
+	defer ln.Close()
+	var got []byte
+	done := make(chan struct{})
+	go func() {
+		defer close(done)
+		c, err := ln.Accept()
+		if err != nil {
+			return
+		}
+		defer c.Close()
+		got, _ = io.ReadAll(c)
+	}()
+	ctx, cancel := context.WithCancel(context.Background())
+	conn, err := transport.NewTCP(transport.TCPConnConfig{Ctx: ctx, Host: ln.Addr().String(), Timeout: 20 * time.Second})
+	must(err)
+	v := mode.Abridged
+	if md == "intermediate" {
+		v = mode.Intermediate
+	}
+	func() {
+		defer func() {
+			if p := recover(); p != nil {
+				run.Got = append(run.Got, c08Got{K: "panic", E: fmt.Sprint(p)})
+			}
+		}()
+		m, err := mode.New(v, conn)
+		if err != nil {
+			run.Got = append(run.Got, c08Got{K: "err", E: err.Error()})
+			return
+		}
+		for i, n := range lens {
+			body := bytes.Repeat([]byte{byte(200 + i + 1)}, n)
+			run.Oks = append(run.Oks, m.WriteMsg(body) == nil)
+		}
+	}()
+	conn.Close()
+	cancel()
+	<-done
+	for _, b := range got {
+		run.Wire = append(run.Wire, int(b))
+	}
+	return run
+}
+
 func init() {
 	commands["transport"] = func(args []string) {
 		fs := flag.NewFlagSet("transport", flag.ExitOnError)
@@ -485,6 +537,13 @@ func init() {
 				runs = append(runs, c08Write(id, md, l, rng))
 			}
 		}
+		// sequences with messages the mode cannot carry among ordinary ones
+		for _, md := range []string{"abridged", "intermediate"} {
+			for _, lens := range [][]int{{8, 6, 8}, {3}, {5, 4}, {0, 2, 0, 4}, {508, 509, 508, 4}, {504, 510, 8}, {1, 2, 3, 4}, {12, 12, 12}, {4, 7, 7, 4, 513, 8}} {
+				id++
+				runs = append(runs, c08WriteSeq(id, md, lens))
+			}
+		}
 		f, err := os.Create(*out)
 		must(err)
 		enc := json.NewEncoder(f)
@@ -504,6 +563,12 @@ func init() {
 			}
 			if runs[i].Sent == nil {
 				runs[i].Sent = []int{}
+			}
+			if runs[i].Oks == nil {
+				runs[i].Oks = []bool{}
+			}
+			if runs[i].Wire == nil {
+				runs[i].Wire = []int{}
 			}
 			enc.Encode(runs[i])
 		}
